@@ -36,7 +36,7 @@ theorem repeated_arrival_is_noop (P : Params) (h : Nat) (keymr : String) (bo : N
     (hx : s.isReplay e.hash = true) : applyTxEntry P h keymr bo e s = .ok () s := by
   unfold applyTxEntry
   rw [M.bind_run]
-  simp only [M.get_run, hx, Bool.not_true, Bool.and_false, Bool.false_eq_true, if_false]
+  simp only [M.get_run, hx, Bool.not_true, Bool.and_false, Bool.false_and, Bool.false_eq_true, if_false]
   rfl
 
 /-- A marked entry still sitting in holding is skipped when its window is processed: balances,
